@@ -101,6 +101,12 @@ func linRun(w *World, coll bool) {
 				o.ID = g.pickID()
 			}
 		}
+		switch t.Choose(4) {
+		case 1:
+			o.RMaskSet, o.RMask = true, []string{fV}
+		case 2:
+			o.RMaskSet, o.RMask = true, []string{fV, fN}
+		}
 		rd.ops = append(rd.ops, o)
 	}
 	// optionally a lossy subscriber that is never read (it must not affect writers) and a draining backpressured one
@@ -112,6 +118,14 @@ func linRun(w *World, coll bool) {
 		w.Go(rd.name, false, func(t *Task) { rd.run(t, r) })
 	}
 	w.Run()
+	if !w.truncated && !w.Deadlocked && len(w.Unfinished(false)) == 0 && len(rd.ops) > 0 {
+		// the same reads once more when everything has come to rest: a read must not have left anything behind that a
+		// later read of the same kind picks up
+		rd2 := &writer{name: "r2", ops: rd.ops}
+		w.Go(rd2.name, false, func(t *Task) { rd2.run(t, r) })
+		w.Run()
+		rd.hist = append(rd.hist, rd2.hist...)
+	}
 	if w.Deadlocked {
 		w.Violate("deadlock", "tasks blocked forever: "+strings.Join(w.Unfinished(true), ","), nil)
 		return
